@@ -57,6 +57,14 @@ CHECKS = {
             "Seeded (prior workspace, target index) pairs over one small name pool so that file<->directory replacements occur at every depth; target as explicit entries (with the explicit parent-directory entries DVC always adds) and/or an unloaded directory object under a prefix, exec bits, link type, delete on/off, evicted file objects or evicted directory object; old side built as DVC does (build + md5). After compare+apply on the real tmpfs workspace: workspace files == target files byte for byte, target directories exist, explicit exec entries executable, a second compare has nothing to create or delete, with delete off every prior path outside the target survives, every unavailable target path is reported through apply's onerror (for itself or its directory).",
             "Indexes without explicit parent-directory entries are outside the property's well-formed targets (DVC always adds them). With delete off, convergence is only required when no path changes kind.",
             "deterministic simulation: seeded workspace-state x target pairs, apply vs reference model with second-compare fixpoint check", "DESIGN.md §5 C09"),
+    "C05": ("exploration",
+            "Two seeded history kinds on a real tmpfs workspace under the simulated clock. (1) user operations (write / atomic replace / delete / file<->dir swap with cached or uncached bytes, eviction of cache objects) interleaved with UNFORCED checkouts (prompt absent or declining, relink on/off, every link type, both store classes, with/without state): before each checkout the set U of files whose bytes the cache does not hold intact is computed from raw listings; afterwards - whether the call returned or raised - every file of U is byte-identical, and if a member of U stood in the way of the target the call must not have returned normally. (2) link records: save_link and checkout-recorded links, user modify in place / replace / remove / re-create at later simulated times, get_unused_links(used)+remove_links: every path that disappears must be a recorded link, not listed as used, unmodified since it was recorded.",
+            "A modification happens at a strictly later simulated time than the record it invalidates (the link token is (inode, mtime)). Any exception counts as a refusal; the safety oracle is byte preservation.",
+            "deterministic simulation: seeded user/checkout histories under a simulated clock vs byte-accounting oracle", "DESIGN.md §5 C05"),
+    "C10": ("exploration",
+            "Seeded (prior, target, L0, L1) scenarios: the prior tree is materialised by a real checkout with link type L0, the user adds / removes / atomically replaces nested files, then a forced checkout of the target with configured link type L1, the same call again, then relink=True; both store classes, with/without state, duplicate contents and empty files, single-file targets. Oracle: workspace == target bytes; the second call returns None and the seam records no workspace mutation; after relink every file is of type L1 judged by lstat/readlink/inode against the cache object; the cache's {oid: bytes} is identical before and after; the saved link record equals (inode, mtime token) recomputed independently from the workspace.",
+            "User edits of link-type files are atomic replacements. Zero-length files are exempt from the hardlink-inode test (LocalFileSystem.link deliberately creates a fresh empty file).",
+            "deterministic simulation: seeded workspace histories x link-type matrix vs reference model, seam log as mutation witness", "DESIGN.md §5 C10"),
 }
 
 NA_FIXED = {
